@@ -76,12 +76,19 @@ def candidate_lines(path):
         if in_test:
             continue
         if "cfg(rsdd_verif)" in st:
-            skip_next_verif = 6
+            skip_next_verif = 1
             continue
-        if skip_next_verif > 0:
-            skip_next_verif -= 1
-            if "crate::verif" in st or st in ("{", "}", "});", "}") or "verif::" in st:
-                continue
+        if skip_next_verif == 1:
+            # the guarded item: a single statement, or a block / fn skipped up to its closing brace
+            depth = st.count("{") - st.count("}")
+            skip_next_verif = 2 if depth > 0 else 0
+            verif_depth = depth
+            continue
+        if skip_next_verif == 2:
+            verif_depth += st.count("{") - st.count("}")
+            if verif_depth <= 0:
+                skip_next_verif = 0
+            continue
         if not st or st.startswith("//") or st.startswith("#[") or st.startswith("use ") or st.startswith("///") or st.startswith("extern crate"):
             continue
         if re.match(r"^(pub(\([a-z]+\))? )?(unsafe )?(extern \"C\" )?(fn|struct|enum|impl|trait|type|const|static|mod)\b", st) or st.startswith("where") or "->" in st and st.endswith("{"):
